@@ -112,7 +112,11 @@ func (o *Obligation) queryValues(terms []string, timeoutS int, extra ...string) 
 	for _, t := range terms {
 		fmt.Fprintf(&b, "(get-value (%s))\n", t)
 	}
-	r := runSolver(context.Background(), solvers[0], b.String(), timeoutS)
+	text := b.String()
+	if o.relaxed {
+		text = relaxQuantifiers(text, 16)
+	}
+	r := runSolver(context.Background(), solvers[0], text, timeoutS)
 	if r.Status != "sat" {
 		return nil, false
 	}
@@ -138,9 +142,15 @@ func (o *Obligation) queryValues(terms []string, timeoutS int, extra ...string) 
 
 // tryReplay attempts to turn the solver's model into a run of the real code. Returns true if the failure reproduced.
 func tryReplay(e *Engine, rep *FnReport, o *Obligation, ob *OblReport, verifDir string, content map[string]interface{}) bool {
-	if ob.Status != "failed" || o == nil || o.fc == nil || o.fc.fn == nil || e == nil {
+	if o == nil || o.fc == nil || o.fc.fn == nil || e == nil {
 		content["replay"] = "none: the solver produced no model (undecided obligation)"
 		return false
+	}
+	if ob.Status != "failed" {
+		// no model from the solver (quantified facts in the guard): search for a candidate input with the quantifiers
+		// replaced by finitely many instances; only a run of the real code decides whether it is a counterexample
+		o.relaxed = true
+		content["candidate_search"] = "solver gave no model; candidate input from the query with quantifiers instantiated at 0..15 (decided only by running the real code)"
 	}
 	fn := o.fc.fn
 	if fn.Parent() != nil {
@@ -248,6 +258,14 @@ func tryReplay(e *Engine, rep *FnReport, o *Obligation, ob *OblReport, verifDir 
 	vals, ok := o.queryValues(terms, 20, small...)
 	if !ok {
 		vals, ok = o.queryValues(terms, 20)
+	}
+	if !ok && !o.relaxed {
+		o.relaxed = true
+		content["candidate_search"] = "model extraction failed; candidate input from the query with quantifiers instantiated at 0..15 (decided only by running the real code)"
+		vals, ok = o.queryValues(terms, 20, small...)
+		if !ok {
+			vals, ok = o.queryValues(terms, 20)
+		}
 	}
 	if !ok {
 		content["replay"] = "none: model extraction failed"
@@ -457,6 +475,13 @@ func tryReplay(e *Engine, rep *FnReport, o *Obligation, ob *OblReport, verifDir 
 %s
 var _ = runtime.GC
 
+func iteReplay[T any](c bool, a, b T) T {
+	if c {
+		return a
+	}
+	return b
+}
+
 func be32Replay(b []byte, i int) uint32 {
 	return uint32(b[i])<<24 | uint32(b[i+1])<<16 | uint32(b[i+2])<<8 | uint32(b[i+3])
 }
@@ -595,5 +620,6 @@ func postToGo(o *Obligation, fn *ssa.Function) string {
 		expr = regexp.MustCompile(`\b`+regexp.QuoteMeta(p.Name())+`\b`).ReplaceAllString(expr, "a_"+p.Name())
 	}
 	expr = regexp.MustCompile(`\bbe32\(`).ReplaceAllString(expr, "be32Replay(")
+	expr = regexp.MustCompile(`\bite\(`).ReplaceAllString(expr, "iteReplay(")
 	return expr
 }
